@@ -36,7 +36,7 @@ Qed.
 Lemma Inv8_nil : Inv8 [].
 Proof. constructor; cbn; try constructor; intros; contradiction. Qed.
 
-Lemma Inv8_app s id ph : Inv8 s -> ph <= 2 -> Inv8 (s ++ [mkC (len s) id ph false]).
+Lemma Inv8_app s id ph : Inv8 s -> ph <= 2 -> Inv8 (s ++ [mkC (len s) id ph false false]).
 Proof.
   intros [I1 I2 I3 I4] Hph. constructor.
   - rewrite map_app. cbn. apply NoDup_app_one.
@@ -65,7 +65,7 @@ Qed.
 
 Lemma exec_inv s o : Inv8 s -> step_known s o = false -> Inv8 (fst (exec s o)).
 Proof.
-  intros I Hk. pose proof I as [I1 I2 I3 I4]. destruct o as [id|k|id|id oc|k]; cbn [exec].
+  intros I Hk. pose proof I as [I1 I2 I3 I4]. destruct o as [id|k|id|id oc|k|k]; cbn [exec].
   - apply Inv8_app; [assumption|lia].
   - destruct (existsb _ s); cbn [fst]; [|assumption].
     apply Inv8_map; [assumption| | |].
@@ -90,6 +90,11 @@ Proof.
         congruence. }
       apply N.eqb_neq in E1, H0. pose proof (I3 c Hin). lia.
   - assumption.
+  - destruct (find _ s) as [t|]; cbn [fst]; [|assumption].
+    apply Inv8_map; [assumption| | |].
+    + intros c. now destruct (_ && _).
+    + intros c Hin. destruct (_ && _); cbn; now apply I3.
+    + intros c Hin. destruct (_ && _); cbn; now apply I4.
 Qed.
 
 Lemma num_unique s c c' : Inv8 s -> In c s -> In c' s -> num c = num c' -> c = c'.
@@ -151,6 +156,27 @@ Definition witness : input := [OAdmit 0; ODisc 0 (Some 0); ORelease 0; OProbe 0]
 Lemma known_witness : known witness = 1 /\ monitor witness (model witness) = false /\
                       model witness = Ok [(1, []); (1, []); (1, []); (1, [])].
 Proof. repeat split. Qed.
+
+(* A disconnect request stops every registered connection it names WHETHER OR NOT traffic is
+   piled up for it (busy): the model's actor loop is the biased select — the token is looked at
+   before the queues. *)
+Lemma busy_revoked_stops s id o c :
+  In c s -> matches c id o = true -> phase c = 1 ->
+  match o with Some k => k <? len s | None => true end = true ->
+  In (mkC (num c) (cid c) 2 true false) (fst (exec s (ODisc id o))) /\
+  snd (exec s (ODisc id o)) = 2.
+Proof.
+  intros Hin Hm Hp Hg. cbn [exec]. rewrite Hg. cbn [fst snd]. split.
+  - apply in_map_iff. exists c. split; [|assumption]. rewrite Hm, Hp. reflexivity.
+  - replace (existsb _ s) with true; [reflexivity|]. symmetry. apply existsb_exists.
+    exists c. split; [assumption|]. now rewrite Hm, Hp.
+Qed.
+
+(* non-vacuity: a busy registered connection, revoked by endpoint id *)
+Example busy_example :
+  model [OConnect 0; OFlood 0; ODisc 0 None; OProbe 0] = Ok [(1, []); (1, []); (2, []); (0, [])] /\
+  tag [OConnect 0; OFlood 0; ODisc 0 None; OProbe 0] = 4.
+Proof. split; reflexivity. Qed.
 
 (* readable form of the monitor on one probe *)
 Lemma probe_ok_spec s k r :
@@ -265,7 +291,7 @@ Lemma cancelled_is_permanent s e s' c :
   cancelled (conns s c) = true -> cancelled (conns s' c) = true.
 Proof.
   intros Hc H Hcan.
-  destruct e as [id v|x|x|x|x|k|a d tg|x pkt|id o]; cbn [step] in H.
+  destruct e as [id v|x|x|x|x|k|a d tg|x pkt|id o|id|x]; cbn [step] in H.
   - injection H as <-. cbn. rewrite fupd_other by lia. assumption.
   - destruct (_ && _); [|discriminate]. injection H as <-. cbn.
     assert (G : cancelled (conns (match reg s (eid (conns s x)) with
@@ -304,6 +330,8 @@ Proof.
   - destruct o as [y|].
     + destruct (existsb _ _); injection H as <-; [|assumption]. now rewrite cancel_cancelled, Hcan.
     + injection H as <-. now rewrite fold_cancel_cancelled, Hcan.
+  - injection H as <-. cbn. now destruct (existsb _ _).
+  - destruct (taken _); [|discriminate]. injection H as <-. now rewrite cancel_cancelled, Hcan.
 Qed.
 
 Lemma nconns_mono s e s' : step true s e = Some s' -> nconns s <= nconns s'.
@@ -318,6 +346,7 @@ Proof.
     destruct rest; [cbn; lia|].
     destruct (same_reg_enqueue_m (set_reg s (eid (conns s c)) (n :: rest)) n (status_frame (ver (conns s n)) 0)) as (h & _).
     rewrite h. cbn. lia.
+  - cbn [step] in H. injection H as <-. cbn. lia.
 Qed.
 
 Lemma run_cancelled tr : forall s s' c,
@@ -390,6 +419,29 @@ Proof.
   - unfold crange. apply Injective_map_NoDup; [intros x y; apply Nat2N.inj|apply seq_NoDup].
   - unfold crange. apply in_map_iff. exists (N.to_nat c). split; [apply N2Nat.id|]. apply in_seq. lia.
 Qed.
+
+(* ... with whatever is queued for it: after a full scheduler round ([settle]: exits of
+   cancelled / closed connections first, then every running actor drains its queues) a running
+   connection whose token is cancelled has left its loop, nothing queued for it has been written
+   to its client, and both queues are as they were. *)
+Lemma cancelled_exits_before_queues s c :
+  c < nconns s -> cstate (conns s c) = Running -> cancelled (conns s c) = true ->
+  cstate (conns (settle s) c) = Exited /\ got (conns (settle s) c) = got (conns s c) /\
+  pq (conns (settle s) c) = pq (conns s c) /\ mq (conns (settle s) c) = mq (conns s c).
+Proof.
+  intros Hc Hr Hcan. destruct (settle_spec s) as [_ H]. rewrite H.
+  apply N.ltb_lt in Hc. rewrite Hc. unfold settle_conn, drain_conn, exit_conn.
+  rewrite Hr, Hcan. cbn. repeat split.
+Qed.
+
+(* non-vacuity: a full packet queue at the moment of the request *)
+Example busy_cancelled_example :
+  exists s, run true (init 2)
+    [Spawn 0 2; Insert 0; Spawn 1 2; Insert 1; Send 1 0 7; Send 1 0 8; Disconnect 0 None] = Some s /\
+    pq (conns s 0) = [FData 1 7; FData 1 8] /\ cancelled (conns s 0) = true /\
+    cstate (conns (settle s) 0) = Exited /\ got (conns (settle s) 0) = [] /\
+    cstate (conns (settle s) 1) = Running.
+Proof. eexists. split; [vm_compute; reflexivity|]. vm_compute. repeat split. Qed.
 
 (* The finding: a request that arrives before the connection is registered finds nothing,
    changes nothing and returns false; the connection registers afterwards, is the active one,
